@@ -10,6 +10,8 @@ function-kind selector.
 from __future__ import annotations
 
 import argparse
+import os
+import sys
 import opcode
 import sqlite3
 
@@ -402,31 +404,40 @@ def realrun_body(t, k):
         tracer(fr, e.event, e.arg)
     logger.flush()
     strategy = {"--ignore-existing-annotations": S.IGNORE, "--omit-existing-annotations": S.OMIT}.get(flag, S.REPLICATE)
-    out, err = Sink(), Sink()
-    args = argparse.Namespace(module_path=(M, None), limit=2000, verbose=True, config=PipeConfig(store, k, make_rewriter(rw)),
-                              disable_type_rewriting=(flag == "--disable-type-rewriting"), existing_annotation_strategy=strategy, sample_count=False)
-    stub = cli.get_stub(args, out, err)
-    conn.close()
-    text = stub.render() if stub is not None else None
 
     def fail(msg):
         return check(False, lambda: f"recorded workload, rewriter={rw} flag={flag} k={int(k)}: {msg}")
 
-    if text is None:
-        return fail(f"no stub generated; stderr={err.getvalue()!r}")
-    try:
-        info = parse_stub(text, M)
-    except StubError as e:
-        return fail(f"{e}\n--- stub ---\n{text}")
+    # one stub per module of the workload (the twin modules have byte-identical source: equal code objects, different modules)
+    infos, texts = {}, {}
+    for mod_name in (M, "vfix.twin_a", "vfix.twin_b"):
+        out, err = Sink(), Sink()
+        args = argparse.Namespace(module_path=(mod_name, None), limit=2000, verbose=True, config=PipeConfig(store, k, make_rewriter(rw)),
+                                  disable_type_rewriting=(flag == "--disable-type-rewriting"), existing_annotation_strategy=strategy, sample_count=False)
+        stub = cli.get_stub(args, out, err)
+        text = stub.render() if stub is not None else None
+        if text is None:
+            conn.close()
+            return fail(f"no stub generated for {mod_name}; stderr={err.getvalue()!r}")
+        try:
+            infos[sys.modules[mod_name].__file__] = parse_stub(text, mod_name)
+        except StubError as e:
+            conn.close()
+            return fail(f"{mod_name}: {e}\n--- stub ---\n{text}")
+        texts[sys.modules[mod_name].__file__] = text
+    conn.close()
     expected, _unfinished = C2._expected_log(evs, lambda code: True, k)
     seen_functions = 0
     for code, entry, ret_present, ret_value, yields in expected:
         qn = code.co_qualname
         if "<locals>" in qn or code.co_name in ("__init__",):
             continue
+        info, text = infos.get(code.co_filename), texts.get(code.co_filename)
+        if info is None:
+            return fail(f"finished call of {qn} from {code.co_filename}: not a module of the workload")
         fis = info.functions.get(qn)
         if not fis:
-            return fail(f"finished call of {qn} has no function stub\n--- stub ---\n{text}")
+            return fail(f"finished call of {qn} ({os.path.basename(code.co_filename)}) has no function stub\n--- stub ---\n{text}")
         if len(fis) != 1:
             return fail(f"{qn} stubbed {len(fis)} times")
         fi = fis[0]
